@@ -37,25 +37,35 @@ def build_registry(repo_root, contract_modules):
 
 def _work(job):
     repo_root, contract_modules, qual, timeout, hooks_mod = job
+    role = None
+    if isinstance(qual, tuple):
+        qual, role = qual
     from .contract import verify_function
     from .pyvc import Engine, OutOfSubset
     t0 = time.time()
-    out = {"qual": qual, "obligations": [], "error": None, "paths": 0}
+    out = {"qual": qual, "label": (qual + "@" + role) if role else qual, "obligations": [], "error": None, "paths": 0}
     try:
         reg = build_registry(repo_root, contract_modules)
         eng = Engine(reg.repo, reg)
+        eng.role = role
         con = reg.contract(qual)
         if con is None:
             raise OutOfSubset("no contract registered for %s" % qual)
         if hooks_mod:
             importlib.import_module(hooks_mod).attach(eng, reg, qual)
-        out["paths"] = verify_function(eng, con)
+        out["paths"] = verify_function(eng, con, label=(qual + "@" + role) if role else None)
+        out["label"] = (qual + "@" + role) if role else qual
         out["explore_s"] = round(time.time() - t0, 2)
+        out["unreached"] = list(getattr(eng, "unreached", []))
         out["source_sha"] = reg.repo.func_source_hash(qual)
         if getattr(reg, "regex_facts", None) is not None:
             out["regex_facts"] = reg.regex_facts.log
     except OutOfSubset as ex:
         out["error"] = "out-of-subset: %s" % ex
+        return out
+    except Exception as ex:       # engine problems are never verdicts
+        import traceback
+        out["error"] = "engine-error: %r\n%s" % (ex, traceback.format_exc()[-1500:])
         return out
     groups = OrderedDict()
     for ob in eng.obligations:
@@ -66,7 +76,7 @@ def _work(job):
             if z3.is_true(ob.goal):
                 ob.query = None
                 continue
-            names = ["|%s|" % n for n in list(ob.vars)[:40]]
+            names = ["|%s|" % n for n in list(ob.vars)[:160]]
             ob.query = smt.Query(name, ob.pc + [z3.Not(ob.goal)], names)
             queries.append(ob.query)
     smt.decide_all(queries, timeout=timeout, workers=4, prefer="cvc5")
@@ -104,11 +114,19 @@ def report(ck, results, select=None, replayer=None, rename=None):
     """map worker results onto ck obligations.  select(name)->bool filters obligations of this property."""
     lock = load_lock()
     for res in results:
-        q = res["qual"]
-        ck.under_contract(q, role="body verified against its sidecar contract (%d paths)" % res["paths"])
+        q = res.get("label", res["qual"])
+        ck.under_contract(res["qual"], role="body verified against its sidecar contract (%d paths)%s" % (res["paths"], (" as role " + q.split("@")[1]) if "@" in q else ""))
         if res["error"]:
             ck.ob("%s/verification" % q, "undecided", backend="pyvc", detail={"reason": res["error"]})
             continue
+        cov_name = "%s/coverage:every-statement-reached" % q
+        if select is None or select(cov_name):
+            if res.get("unreached"):
+                ck.ob(cov_name, "undecided", backend="pyvc-paths", kind="deductive",
+                      detail={"reason": "vacuity guard: statements at lines %s of %s are reached by no symbolic path (contradictory contract, or dead code not declared in unreachable_ok)" % (res["unreached"], res["qual"])})
+            else:
+                ck.ob(cov_name, "discharged", backend="pyvc-paths", clause="vacuity guard: every statement of the function body is reached by at least one symbolic path",
+                      queries=res["paths"])
         escaping = [r for r in res["obligations"] if r["kind"] == "raises" and r["status"] != "discharged"]
         summary_name = "%s/raises-only-declared" % q
         if (select is None or select(summary_name)) and not escaping:
